@@ -254,6 +254,11 @@ func (p *Parser) led(tokenType tokType, node ASTNode) (ASTNode, error) {
 				if err := p.match(tComma); err != nil {
 					return ASTNode{}, err
 				}
+				if p.current() == tRparen {
+					return ASTNode{}, p.syntaxError("Expected an argument after tComma, received: " + p.current().String())
+				}
+			} else if p.current() != tRparen {
+				return ASTNode{}, p.syntaxError("Expected tComma or tRparen, received: " + p.current().String())
 			}
 			args = append(args, expression)
 		}
